@@ -99,10 +99,21 @@ namespace vh
         if (c.has("hist"))
         {
             double dt = std::ldexp(c["dt"][0].as_double() / c["dt"][1].as_double(), k_scale_exp);
-            std::unique_ptr<eroder_t> er;
+            // two objects: number 1 is a COPY of number 0 (copy constructor) made in the middle of the history;
+            // from then on the two are independent values - a setter call on one must not show in the other
+            std::unique_ptr<eroder_t> ers[2];
             for (auto& ep : c["hist"].a)
             {
                 const auto& en = *ep;
+                if (en.has("copy"))
+                {
+                    if (ers[0])
+                        ers[1] = std::make_unique<eroder_t>(*ers[0]);
+                    continue;
+                }
+                auto& er = ers[en.get_int("obj", 0)];
+                if (en.get_int("obj", 0) == 1 && !er)
+                    continue;
                 if (en.has("bad"))
                 {
                     // a call with an elevation array of another shape (one row too many): whatever it does
@@ -133,7 +144,11 @@ namespace vh
                         k.flat(i) = kval(en["Ka"][i].as_double());
                     kt = k;
                 }
-                if (!er)
+                if (en.get_int("noset", 0) && er)
+                {
+                    // no setter call: the object must still hold the diffusivity it was last given
+                }
+                else if (!er)
                 {
                     if (en.has("Ka"))
                         er = std::make_unique<eroder_t>(*g, kt);
